@@ -1006,6 +1006,12 @@ Definition session2 (fuel : nat) (cfg : config) (msgs : list nat) : prog (list (
       Ret [Ok tt; s1; s2; r; c]
   end.
 
+(* a sequence of dials of one mail.Client (re-dial after Close, DialAndSend twice, a setter in between): the k-th dial
+   runs with the k-th configuration against the k-th server; nothing of an earlier dial is remembered -- the dial path
+   (DialToSMTPClientWithContext, tls, auth, authTypeAutoDiscover) assigns no field of the Client (T1) *)
+Definition dial_sequence (fuel : nat) (l : list (config * srv)) : list (res unit * world) :=
+  map (fun cs => run (dial fuel (fst cs)) (mkW (snd cs) conn0 cs0 [] clk0)) l.
+
 (* ------------------------------------------------------------------------------------------------ *)
 (* running against a fresh world *)
 
